@@ -167,6 +167,17 @@ func genC24(r *simrt.Rand, tier string) any {
 		if r.Chance(15) {
 			p.Readers = 2
 		}
+		if r.Chance(6) {
+			// an idle stream: the next entry arrives about when the read
+			// deadlines of both ends (read from the running code: 30 s) expire
+			w := r.Intn(len(p.Writers))
+			if n := len(p.Writers[w].Ops); n > 0 {
+				p.Writers[w].Ops[r.Intn(n)].SleepUs = int64(30_000_000 - r.Intn(120_000) + r.Intn(20_000))
+			}
+			if p.AckMs < 100 {
+				p.AckMs = 100
+			}
+		}
 		return p
 	}
 	nw := []int{1, 1, 2, 3, 4, 8}[r.Intn(6)]
@@ -283,7 +294,9 @@ type c24run struct {
 	cpInterval  int
 	appendErrs  []string
 	curWriter   map[*simrt.Task]int
-	hookOrder   []int
+	curPayload  map[int][]byte // producer -> pristine copy of the payload being appended
+	hookCalls   map[int]int    // producer -> hook calls so far
+	hookTrouble []string
 }
 
 func payloadFor(seed int64, w, o, size int) []byte {
@@ -311,6 +324,8 @@ func (st *c24run) body(dir string) {
 	wn := simrt.NodeOf("writer")
 	st.net = newSimNet()
 	st.curWriter = map[*simrt.Task]int{}
+	st.curPayload = map[int][]byte{}
+	st.hookCalls = map[int]int{}
 	if p.Mode == "adversarial" {
 		st.net.faults = p.Faults
 		st.net.latencyNs = int64(p.LatencyUs) * 1000
@@ -360,6 +375,13 @@ func (st *c24run) body(dir string) {
 				wr = v
 			}
 			st.hooks = append(st.hooks, hookRec{Idx: idx, Hash: phash(e.Payload), Size: len(e.Payload), Covered: st.established, Writer: wr})
+			if wr >= 0 {
+				st.hookCalls[wr]++
+				// what is queued must carry the appended bytes (an envelope may precede them)
+				if !bytes.HasSuffix(e.Payload, st.curPayload[wr]) {
+					st.hookTrouble = append(st.hookTrouble, fmt.Sprintf("hook #%d (producer %d): the payload handed to the hook does not end with the appended bytes", idx, wr))
+				}
+			}
 			simrt.Event("HOOK #%d writer=%d size=%d", idx, wr, len(e.Payload))
 			orig(e)
 		})
@@ -473,6 +495,8 @@ func (st *c24run) body(dir string) {
 					simrt.Sleep(time.Duration(op.SleepUs) * time.Microsecond)
 				}
 				pl := payloadFor(p.PaySeed, wi, oi, op.Size)
+				st.curPayload[wi] = append([]byte(nil), pl...)
+				before := st.hookCalls[wi]
 				var err error
 				if op.Kind == "raw" {
 					err = w.AppendRaw(pl) // the hook consumer keeps this slice: never reused
@@ -485,6 +509,9 @@ func (st *c24run) body(dir string) {
 				}
 				if err != nil {
 					st.appendErrs = append(st.appendErrs, fmt.Sprintf("w%d/o%d: %v", wi, oi, err))
+				}
+				if n := st.hookCalls[wi] - before; n != 1 {
+					st.hookTrouble = append(st.hookTrouble, fmt.Sprintf("producer %d op %d (%s): the WAL append called the replication hook %d times", wi, oi, op.Kind, n))
 				}
 			}
 		})
@@ -646,6 +673,9 @@ func judgeC24(st *c24run, out *simkit.Outcome) {
 	if len(st.appendErrs) > 0 {
 		out.Violate("C24."+mode+".wal-append-failed", "%v", st.appendErrs)
 	}
+	if len(st.hookTrouble) > 0 {
+		out.Violate("C24."+mode+".append-not-queued-for-replication-once-intact", "%v", st.hookTrouble)
+	}
 
 	for ri, rs := range st.readers {
 		links := st.linksOf(ri)
@@ -694,7 +724,10 @@ func judgeC24(st *c24run, out *simkit.Outcome) {
 			for _, l := range links {
 				if !l.touched && l.closedBy == "writer" && p.ConnCap == 0 {
 					why := firstRaw(st.wlog.lines, "error")
-					circ := "no-stale-connection"
+					circ := "previous-connection-already-closed"
+					if l.idx == 0 {
+						circ = "first-connection"
+					}
 					if l.staleAtDial {
 						circ = "stale-previous-connection-of-same-reader"
 					}
